@@ -20,6 +20,7 @@ package shellfuncsfile
 
 // fromSingleFile: converted content, or the content unchanged when no filter matches.
 //@ func Converter.fromSingleFile(c, name) (res, err)
+//@   locals c name b err filters res
 //@   props C17
 //@   ghost data []byte = nil
 //@   ghost rdErr bool = false
@@ -38,6 +39,7 @@ package shellfuncsfile
 // fromReader: the first matching pattern in sorted order decides the filter;
 // non-empty output ends in a newline (appended if missing, nothing else changed).
 //@ func Converter.fromReader(c, r, fn, filters) (b, err)
+//@   locals c r fn filters patterns f matchedPattern pattern ok err b err
 //@   props C17
 //@   nilable filters
 //@   ghost nSort int = 0
@@ -68,6 +70,7 @@ package shellfuncsfile
 // them; only regular files are converted, in that order, and the payload is
 // the concatenation of exactly those conversions.
 //@ func Converter.fromDirectory(c, source) (res, err)
+//@   locals c source sfs err filters fileNames patterns pattern ms err buf fileName fn fi err err f err b
 //@   props C17
 //@   ghost nSortP int = 0
 //@   ghost nSortN int = 0
@@ -95,6 +98,7 @@ package shellfuncsfile
 // through fromSingleFile, anything else is refused; the converted bytes are
 // returned as they are.
 //@ func Converter.from(c, source) (res, err)
+//@   locals c source fi b err
 //@   props C17
 //@   ghost nStat int = 0
 //@   ghost info fs.FileInfo = nil
@@ -116,6 +120,7 @@ package shellfuncsfile
 // From: sources concatenated in the order given; the listing function is
 // generated from everything before it.
 //@ func Converter.From(c, sources) (res, err)
+//@   locals c sources buf source b err lf err
 //@   props C17 C18
 //@   ghost last []byte = nil
 //@   ghost lastOK bool = false
@@ -141,6 +146,7 @@ package shellfuncsfile
 // de-duplicated, and every row handed to the template has had every single
 // quote replaced by '\'' - none skipped, nothing else changed.
 //@ func GenFuncList(s) (res, err)
+//@   locals s buf tw line name desc lines s i line ret err
 //@   props C18
 //@   ghost nOwn int = 0
 //@   ghost orig string = ""
@@ -180,6 +186,7 @@ package shellfuncsfile
 // line untouched), re-joined with a trailing newline; the lead comments are
 // that run minus its initial #! / bare # lines.
 //@ func cleanPerl(rawPerl) (leadComments, perl)
+//@   locals rawPerl leadComments perl lines leadCommentLines line start i lcl LOOP i line rejoin ss
 //@   props C16
 //@   ghost nJoin int = 0
 //@   ghost trimmed string = ""
@@ -207,6 +214,7 @@ package shellfuncsfile
 // function name (base name without extension), the lead comments and the
 // uuencoded program text with ' and \ replaced by s and b - uniformly.
 //@ func FromPerl(name, r) (res, err)
+//@   locals name r funcName b err leadComments perl perlUU ret err
 //@   props C16
 //@   ghost data []byte = nil
 //@   ghost rdErr bool = false
@@ -234,6 +242,7 @@ package shellfuncsfile
 
 // FromShell: shell files are passed through exactly as read.
 //@ func FromShell(name, r) (res, err)
+//@   locals r
 //@   props C17
 //@   ghost n int = 0
 //@   ghost got []byte = nil
